@@ -84,6 +84,7 @@ from collections.abc import Mapping
 from contextlib import contextmanager
 from copy import deepcopy
 from filecmp import cmpfiles, dircmp
+from functools import partial
 from multiprocessing.pool import ThreadPool
 
 from ._utility import _query_yes_no, _safe_relpath
@@ -487,6 +488,19 @@ class DocSync:
                     logger.more("Skipped keys: {}".format(", ".join(skipped)))
 
 
+def _ignore_excluded(exclude, keep=()):
+    """Return a shutil.copytree ignore function for the given exclude patterns."""
+
+    def ignore(path, names):
+        return [
+            name
+            for name in names
+            if name not in keep and exclude and any(re.match(p, name) for p in exclude)
+        ]
+
+    return ignore
+
+
 def _sync_job_workspaces(
     src, dst, strategy, exclude, copy, copytree, recursive=True, deep=False, subdir=""
 ):
@@ -505,7 +519,7 @@ def _sync_job_workspaces(
         if os.path.isfile(fn_src):
             copy(fn_src, fn_dst)
         elif recursive:
-            copytree(fn_src, fn_dst)
+            copytree(fn_src, fn_dst, ignore=_ignore_excluded(exclude))
         else:
             logger.warning(f"Skip directory '{fn_src}'.")
     for fn in diff.diff_files:
@@ -853,7 +867,16 @@ def sync_projects(
     def _clone_or_sync(src_job):
         """Clone a job if it does not exist, or sync if it exists."""
         try:
-            destination.clone(src_job, copytree=proxy.copytree)
+            # Excluded files are not copied into a new job either, except for the
+            # state point and the document, which make up the job.
+            if exclude is None:
+                patterns = []
+            else:
+                patterns = list(exclude) if isinstance(exclude, list) else [exclude]
+            ignore = _ignore_excluded(
+                patterns, keep=(src_job.FN_STATE_POINT, src_job.FN_DOCUMENT)
+            )
+            destination.clone(src_job, copytree=partial(proxy.copytree, ignore=ignore))
             logger.more(f"Cloned job '{src_job}'.")
             return 1
         except DestinationExistsError:
